@@ -5,6 +5,7 @@ mod checks_c05;
 mod checks_c06;
 mod checks_c11;
 mod checks_c14;
+mod checks_c16;
 mod checks_c20;
 mod checks_codec;
 mod checks_prio2;
@@ -37,6 +38,7 @@ fn registry() -> Vec<Box<dyn Check>> {
     v.extend(checks_c14::checks());
     v.extend(checks_c11::checks());
     v.extend(checks_c05::checks());
+    v.extend(checks_c16::checks());
     v.extend(checks_c06::checks());
     v.extend(checks_prio2::checks());
     v.extend(checks_twin::checks());
